@@ -78,7 +78,7 @@ def setup_worker(ctx):
     rid, req = sp.create_authn_request(fed.SSO_REDIRECT, sign=True)
     msgs.append(("authn_request-signed", "%s" % req, False, "authn_request"))
     from saml2_tophat.saml import NameID, NAMEID_FORMAT_TRANSIENT
-    nid = NameID(format=NAMEID_FORMAT_TRANSIENT, text="subject <&> \"1\"\nline")
+    nid = NameID(format=NAMEID_FORMAT_TRANSIENT, text="DOMAIN\\user <&> \"1\"\nline \\g<1>")
     rid, req = sp.create_logout_request(fed.SLO_IDP, fed.IDP_EID, name_id=nid, reason="bye & <thanks>")
     msgs.append(("logout_request", "%s" % req, False, "logout_request"))
     rid, req = sp.create_attribute_query(fed.SSO_REDIRECT, nid, attribute={"givenName": None})
@@ -86,7 +86,7 @@ def setup_worker(ctx):
     for k, hostile in enumerate((False, True, True)):
         ident = gen.identity(rng, hostile=hostile)
         if hostile:
-            ident["displayName"] = ["multi\nline\nvalue", "tab\tsep", "  padded  "]
+            ident["displayName"] = ["multi\nline\nvalue", "tab\tsep", "  padded  ", "CORP\\tom", "CORP\\nancy", "\\\\server\\share", "ref \\1 and \\g<0>", "end\\"]
         for sr, sa in ((False, False), (True, False), (False, True)):
             xml = fed.issue(idp, ident, sign_response=sr, sign_assertion=sa)
             msgs.append(("response-%s%s%s" % ("hostile" if hostile else "plain", "-R" if sr else "", "-A" if sa else ""), xml, True, "response"))
